@@ -188,7 +188,39 @@ func c09(r *Run) {
 	vb := r.fn(w, "C09.R1", "(*"+H+"/vm.VM).VerifyBlock")
 	if vb != nil {
 		es := findEffects(vb, "call (*chain.Chain).Execute(*")
-		r.check(len(es) == 1 && strings.HasSuffix(es[0].Str, ", (*sync/atomic.Bool).Load(p0.normalOp))"), "C09.R1", "VM.VerifyBlock:passes-normalOp", w.rel(vb.Pos()), "", "VM.VerifyBlock does not pass vm.normalOp.Load() as the normal-operation flag")
+		const nop = "(*sync/atomic.Bool).Load(p0.normalOp)"
+		okF, okS := false, false
+		if len(es) == 1 {
+			args := callArgs(es[0].Ins.(ssa.CallInstruction))
+			flag := args[len(args)-1]
+			switch x := flag.(type) {
+			case *ssa.Phi:
+				okF = true
+				for i, e := range x.Edges {
+					switch term(e) {
+					case nop:
+					case "true":
+						// the forced check applies to undecided blocks once the sync client started
+						pred := x.Block().Preds[i]
+						si := 0
+						for k, sx := range pred.Succs {
+							if sx == x.Block() {
+								si = k
+							}
+						}
+						cs := condStrings(ctrlCondsEdge(pred, si))
+						okS = hasMatch(cs, "(*statesync.Client).Started(p0.SyncClient)") && hasMatch(cs, "(*chainindex.ChainIndex).GetLastAcceptedHeight(p0.chainStore, *)#0 < p3.StatelessBlock.Block.Hght")
+						okF = okF && okS
+					default:
+						okF = false
+					}
+				}
+			default:
+				okF = term(flag) == nop
+			}
+		}
+		r.check(okF, "C09.R1", "VM.VerifyBlock:passes-normalOp", w.rel(vb.Pos()), "", "VM.VerifyBlock does not pass vm.normalOp.Load() (or true for undecided blocks during the state-sync hand-over) as the normal-operation flag")
+		r.check(okS, "C09.R1", "VM.VerifyBlock:undecided-blocks-checked-at-sync-finish", w.rel(vb.Pos()), "", "blocks above the last accepted height that are re-verified when state sync finishes (normal operation not yet switched on) are executed without the replay check: a processing block repeating an accepted transaction is verified")
 	}
 
 	// R2
